@@ -162,6 +162,9 @@ func vfRunES(nActors, nTypes int, groups [][]vfESOp, res *vfCellResult) {
 		}
 		sup.Children = append(sup.Children, cs)
 	}
+	// one more subscriber, outside the recorded history: it becomes a zombie at the end (failure, Restart decision, failing
+	// Restarted hook) and is then killed - a termination path of its own, after which the stream must hold no entry for it
+	sup.Children = append(sup.Children, &vfSpec{Name: "z", Subs: []int{0, 1}, HookFail: map[string]int{"restarted": 1}})
 	if _, err := w.spawnTop(sup); err != nil {
 		add("harness-error", "spawn", "%v", err)
 		return
@@ -241,6 +244,9 @@ func vfRunES(nActors, nTypes int, groups [][]vfESOp, res *vfCellResult) {
 		switch {
 		case e.Kind == "recv" && e.Msg == "SE":
 			a := idx(e.Path)
+			if a < 0 && e.Path == "/sup/z" {
+				continue // the extra subscriber of the final phase: subscribed at launch, outside the recorded history
+			}
 			if a < 0 {
 				add("c19-delivered-to-non-subscriber", "delivery", "event #%d delivered to %s which never subscribed", e.ID, e.Path)
 				continue
@@ -310,6 +316,30 @@ func vfRunES(nActors, nTypes int, groups [][]vfESOp, res *vfCellResult) {
 		// sequential final state (groups are quiescent-separated, inside a group ops on one (actor,type) may race:
 		// take the tables themselves and only check dead actors / consistency between the two tables)
 		_ = final
+	}
+	// the zombie's way out
+	zpath := "/sup/z"
+	w.tellName("z", &vfCmd{ID: w.newID(), Op: "panic"})
+	w.settle(time.Second)
+	zombie := false
+	if cx := w.ctxOf(zpath); cx != nil {
+		zombie = cx.zombie
+	}
+	w.sys.Kill(w.ref("z"), false, "vf-release-zombie")
+	w.settle(time.Second)
+	if zombie && w.ctxOf(zpath) == nil {
+		est0 := es.(*eventStream)
+		est0.mu.RLock()
+		if ts := est0.subscriberTypes[zpath]; len(ts) > 0 {
+			add("c19-table-leak", "subscriberTypes(zombie)", "%s was a zombie, was killed and is deregistered, but still has %d entries in subscriberTypes", zpath, len(ts))
+		}
+		for typ, subs := range est0.subscribers {
+			if _, ok := subs[zpath]; ok {
+				add("c19-table-leak", "subscribers(zombie)", "%s was a zombie, was killed and is deregistered, but is still in subscribers[%v]", zpath, typ)
+			}
+		}
+		est0.mu.RUnlock()
+		res.zombieReleased = true
 	}
 	// table invariants at quiescence
 	est := es.(*eventStream)
@@ -409,7 +439,7 @@ func vfRunESCases(t *testing.T, R *verifrt.Report, check string, n int) {
 	}
 }
 
-const vfESRule = "PRNG histories: 2-12 subscriber actors under a restarting supervisor, 1-6 sequential publishers, 1-5 event types, 8-60 ops in groups of 1-4 issued from separate goroutines at one virtual instant (Subscribe / Unsubscribe / UnsubscribeAll / Publish / kill a subscriber / restart a subscriber), quiescence between groups; recipients(e) = actors that processed or dead-lettered e; porcupine per event type against the sequential model 'set of subscribers' (termination = UnsubscribeAll over [kill call, ActorKilledEvent]), duplicate-delivery and per-publisher order ledger, consistency of the two subscriber tables and absence of dead actors in them at quiescence. non-trivial+distinct = distinct histories with >= 1 delivery"
+const vfESRule = "PRNG histories: 2-12 subscriber actors under a restarting supervisor, 1-6 sequential publishers, 1-5 event types, 8-60 ops in groups of 1-4 issued from separate goroutines at one virtual instant (Subscribe / Unsubscribe / UnsubscribeAll / Publish / kill a subscriber / restart a subscriber), quiescence between groups; recipients(e) = actors that processed or dead-lettered e; porcupine per event type against the sequential model 'set of subscribers' (termination = UnsubscribeAll over [kill call, ActorKilledEvent]), duplicate-delivery and per-publisher order ledger, consistency of the two subscriber tables and absence of dead actors in them at quiescence; finally one more subscriber is turned into a zombie (failing Restarted hook) and killed: no entry of it may remain. non-trivial+distinct = distinct histories with >= 1 delivery"
 
 func TestVerif_eventstream(t *testing.T) {
 	R := verifrt.NewReport("eventstream", vfESRule)
